@@ -1030,3 +1030,9 @@ func ext۰json۰Valid(fr *frame, args []value) value {
 }
 
 var _ = unicode.IsUpper
+
+func init() {
+	externals["encoding/json.Marshal"] = ext۰json۰Marshal
+	externals["encoding/json.Unmarshal"] = ext۰json۰Unmarshal
+	externals["encoding/json.Valid"] = ext۰json۰Valid
+}
